@@ -339,9 +339,10 @@ def field_definition_shape(src):
     if len(tr) != 1 or len(tr[0].handlers) != 1:
         raise Shape("field_definition: try/except KeyError")
     h = tr[0].handlers[0].body
-    if not (h and isinstance(h[0], ast.If)):
-        raise Shape("field_definition: handler does not start with if")
-    top = h[0]
+    tops = [st for st in h if isinstance(st, ast.If)]
+    if len(tops) != 1 or not all(isinstance(st, (ast.Assign, ast.AnnAssign, ast.Expr)) for st in h[:h.index(tops[0])]):
+        raise Shape("field_definition: handler is not [simple assignments] + one if")
+    top = tops[0]
     t = top.test
     if not (isinstance(t, ast.Compare) and len(t.ops) == 1 and isinstance(t.ops[0], ast.In)):
         raise Shape("field_definition: `name in ...` test")
@@ -401,6 +402,15 @@ def field_definition_shape(src):
             raise Shape("field_definition: consecutive ifs whose earlier branches do not return")
     if not (len(top.orelse) == 1 and isinstance(top.orelse[0], ast.Assign)):
         raise Shape("field_definition: ordinary branch")
+    # `field_def = None` before the test (c907521): a meta name that falls through the chain is "not a field" (None)
+    # instead of an UnboundLocalError — expressed as catch-all entries at the end of the chain.
+    assigned = top.orelse[0].targets[0].id if isinstance(top.orelse[0].targets[0], ast.Name) else None
+    pre = h[:h.index(top)] if top in h else []
+    if any(isinstance(st, (ast.Assign, ast.AnnAssign)) and isinstance(getattr(st, "value", None), ast.Constant)
+           and st.value.value is None and any(isinstance(tg, ast.Name) and tg.id == assigned
+                                              for tg in (st.targets if isinstance(st, ast.Assign) else [st.target]))
+           for st in pre):
+        chain += [("NONE", m, False) for m in meta]
     return meta, chain
 
 
@@ -1112,6 +1122,37 @@ def oracle_inexpressible_defaults(ctx):
                      {"check": "inexpressible-defaults", "config": cfg, "errors": paths})
 
 
+def oracle_meta_below_non_query(ctx):
+    """`execute()` may be called without validation: `__schema` / `__type` selected below a type that is NOT the query
+    type are not fields of that type — the ordinary unknown-field handling (selection skipped), never an exception
+    out of the executor (before c907521: UnboundLocalError from `field_definition`)."""
+    from py_gql.execution import Executor, execute
+    from py_gql.execution.blocking_executor import BlockingExecutor
+    from py_gql.execution.runtime import BlockingRuntime
+    from py_gql.lang import parse
+    from py_gql.schema import Field, Int, ObjectType, Schema
+    ob = ObjectType("Ob", [Field("b", Int)])
+    schema = Schema(ObjectType("Query", [Field("o", ob)]))
+    doc = parse('{ o { __schema { queryType { name } } b __type(name: "Ob") { name } tn: __typename } }')
+    for name, cls in (("blocking", BlockingExecutor), ("generic", Executor)):
+        for dis in (False, True):
+            ctx.count()
+            ctx.nontrivial(("meta-below-non-query", name, dis))
+            try:
+                r = execute(schema, doc, initial_value={"o": {"b": 1}}, executor_cls=cls, runtime=BlockingRuntime(),
+                            disable_introspection=dis)
+                data = json.loads(json.dumps(r.response())).get("data")
+            except Exception as e:  # noqa
+                ctx.fail("meta-field-below-non-query-type:raises-" + type(e).__name__,
+                         "`{ o { __schema {..} b } }` executed without validation raises %s out of the executor" % type(e).__name__,
+                         {"check": "meta-below-non-query", "executor": name, "disable": dis})
+                continue
+            want = {"o": {"b": 1}} if dis else {"o": {"b": 1, "tn": "Ob"}}
+            if data != want:
+                ctx.fail("meta-field-below-non-query-type:answered", "expected %r, got %r" % (want, data),
+                         {"check": "meta-below-non-query", "executor": name, "disable": dis})
+
+
 def oracle_directive_locations(ctx):
     """Ledger I5. Every directive location the PARSER accepts in a directive definition (and `Directive(...)`
     accepts in code) must be introspectable: `__schema { directives { locations } }` reports it, nothing raises."""
@@ -1199,6 +1240,7 @@ def run(ctx):
     try:
         oracle_empty_reason(ctx)
         oracle_null_reason(ctx)
+        oracle_meta_below_non_query(ctx)
         oracle_inexpressible_defaults(ctx)
         oracle_directive_locations(ctx)
         oracle_numeric_strings(ctx)
@@ -1245,10 +1287,11 @@ def replay(ctx, data):
         sub = Ctx2(ctx)
         C15_history.one_history(sub, sys.modules[__name__], inp["case"], inp["kind"], inp["hseed"])
         return not any(f["signature"] == data.get("signature") for f in sub.found)
-    if inp.get("check") in ("directive-locations", "numeric-strings", "null-reason", "inexpressible-defaults"):
+    if inp.get("check") in ("directive-locations", "numeric-strings", "null-reason", "inexpressible-defaults", "meta-below-non-query"):
         sub = Ctx2(ctx)
         {"directive-locations": oracle_directive_locations, "numeric-strings": oracle_numeric_strings,
-         "null-reason": oracle_null_reason, "inexpressible-defaults": oracle_inexpressible_defaults}[inp["check"]](sub)
+         "null-reason": oracle_null_reason, "inexpressible-defaults": oracle_inexpressible_defaults,
+         "meta-below-non-query": oracle_meta_below_non_query}[inp["check"]](sub)
         return not any(f["signature"] == data.get("signature") for f in sub.found)
     if inp.get("check") == "empty-reason":
         sub = Ctx2(ctx)
